@@ -137,13 +137,22 @@ Theorem C14_never_skip_with_empty : forall ST init st c f om,
               (f_skip f = false -> cp_cached (k_ext (g_calls st c)) (xa_use_cached a) m = None).
 Proof. exact never_skip_with_empty. Qed.
 
-(* End to end, against the specification nodes: for ALL histories (any number of nodes with or
-   without the extension, any events, any calls, any interleaving of sends, node answers and
-   receipts), a call made on a connection with the extension, or with use_cached_result_metadata
-   off, that returns rows returns them decoded with the columns the answering node encoded them
-   with, and returns exactly the payload that node sent.  Premises: the metadata id determines
-   the columns, ids are not empty, distinct statements have distinct ids and texts, the initial
-   metadata of each statement is what some node announced. *)
+(* End to end, against the specification nodes.  Full-strength statement (the property for every
+   call of every history):
+
+     forall … ls st c a u pg nr cl, srun D ST ns (sinit init nodes) ls = Some st ->
+       k_x k = Some a -> k_st k = CS_done (O_rows u pg nr cl) ->
+       exists enc p, s_enc st c = Some (enc, p) /\ m_cols u = enc /\ …
+
+   It is FALSE for the faithful model of the code: C14_faithful_refuted below (known finding F17,
+   class stale-cached-metadata-without-ext).  Proved instead: for ALL histories (any number of
+   nodes with or without the extension, any events, any calls, any interleaving of sends, node
+   answers and receipts), every call OUTSIDE the class — [KnownClass ext uc] = the connection has
+   no metadata-id extension and the call asks for cached result metadata — that returns rows
+   returns them decoded with the columns the answering node encoded them with, and returns exactly
+   the payload that node sent.  Premises: the metadata id determines the columns, ids are not empty,
+   distinct statements have distinct ids and texts, the initial metadata of each statement is what
+   some node announced. *)
 Theorem C14_faithful : forall (D : schema) (ST : nat -> stmt) (ns : nat) (init : nat -> meta),
   (forall s v v', mid_of D s v = mid_of D s v' -> cols_of D s v = cols_of D s v') ->
   (forall s v, mid_of D s v <> []) ->
@@ -154,10 +163,14 @@ Theorem C14_faithful : forall (D : schema) (ST : nat -> stmt) (ns : nat) (init :
   srun D ST ns (sinit init nodes) ls = Some st ->
   let k := g_calls (s_g st) c in
   k_x k = Some a -> k_st k = CS_done (O_rows u pg nr cl) ->
-  (k_ext k = true \/ xa_use_cached a = false) ->
+  ~ KnownClass (k_ext k) (xa_use_cached a) ->
   exists enc p, s_enc st c = Some (enc, p) /\ m_cols u = enc /\
                 pg = p_paging p /\ nr = p_nrows p /\ cl = p_cells p.
-Proof. exact faithful. Qed.
+Proof. exact faithful_outside_class. Qed.
+
+(* the class is decidable: the extracted [known_classb] computes it *)
+Theorem C14_known_class_dec : forall ext uc, known_classb ext uc = true <-> KnownClass ext uc.
+Proof. exact known_classb_spec. Qed.
 
 (* the specification system is an instance of the generic one: C14_transparent … apply to it *)
 Theorem C14_spec_is_generic : forall (D : schema) (ST : nat -> stmt) (ns : nat) (init : nat -> meta),
@@ -175,7 +188,7 @@ Proof. exact srun_greach. Qed.
    text under the id the client holds, and the statement returns columns), the uninterrupted
    continuation serve/receive (UNPREPARED), serve/receive (PREPARED), reload, serve/receive ends with
    the caller holding the rows the node put into its last answer — decoded with the node's columns
-   whenever the extension is on or cached metadata is off. *)
+   for every call outside the known-finding class. *)
 Theorem C14_evicted_recovers : forall (D : schema) (ST : nat -> stmt) (ns : nat) (init : nat -> meta),
   (forall s v v', mid_of D s v = mid_of D s v' -> cols_of D s v = cols_of D s v') ->
   (forall s v, mid_of D s v <> []) ->
@@ -195,8 +208,8 @@ Theorem C14_evicted_recovers : forall (D : schema) (ST : nat -> stmt) (ns : nat)
   exists st' u,
     srun D ST ns st [SL_serve c p0; SL_recv c; SL_serve c p1; SL_recv c; SL_tick c; SL_serve c p; SL_recv c] = Some st' /\
     k_st (g_calls (s_g st') c) = CS_done (O_rows u (p_paging p) (p_nrows p) (p_cells p)) /\
-    ((k_ext k = true \/ xa_use_cached a = false) -> m_cols u = cols_of D s (n_ver nd s)).
-Proof. exact recovers_faithful. Qed.
+    (~ KnownClass (k_ext k) (xa_use_cached a) -> m_cols u = cols_of D s (n_ver nd s)).
+Proof. exact recovers_outside_class. Qed.
 
 (* The acceptors the correspondence check runs on the recorded traces build a run of the system,
    label by label: an accepted trace is a reachable state in which, for the i-th recorded
@@ -354,17 +367,40 @@ Example C14_ex_batch :
   end = true.
 Proof. vm_compute. reflexivity. Qed.
 
-(* The premise "extension or cached metadata off" of C14_faithful cannot be dropped: without the
-   extension and with use_cached_result_metadata on, ALTER + eviction + re-preparation leaves the
-   cell untouched (the PREPARED of the re-preparation carries no metadata id, [reprepare] then
-   returns before looking at its columns) and the rows encoded with the new columns are decoded
-   with the old ones.  This is the risk the driver's documentation of
-   set_use_cached_result_metadata describes; see docs/C14.md. *)
+(* Known finding F17 (class stale-cached-metadata-without-ext).  Without the extension and with
+   use_cached_result_metadata on, ALTER + eviction + re-preparation leaves the cell untouched (the
+   PREPARED of the re-preparation carries no metadata id, [reprepare] then returns before looking
+   at the columns it announces) and the rows encoded with the new columns are decoded with the old
+   ones: the full-strength C14_faithful fails on this 10-step history of the specification system. *)
+Definition exHistStale : list slabel :=
+  [SL_event 0 (EV_schema 0 1); SL_event 0 (EV_evicted 0);
+   SL_exec 0 0 (exArgs true); SL_serve 0 payB; SL_recv 0; SL_serve 0 payB; SL_recv 0; SL_tick 0;
+   SL_serve 0 payB; SL_recv 0].
+
+Theorem C14_faithful_refuted :
+  exists ls st c a u pg nr cl enc p,
+    srun exD exST 1 (sinit (exInit false) (exNodes false)) ls = Some st /\
+    k_x (g_calls (s_g st) c) = Some a /\
+    k_st (g_calls (s_g st) c) = CS_done (O_rows u pg nr cl) /\
+    KnownClass (k_ext (g_calls (s_g st) c)) (xa_use_cached a) /\
+    s_enc st c = Some (enc, p) /\ m_cols u <> enc.
+Proof.
+  exists exHistStale.
+  destruct (srun exD exST 1 (sinit (exInit false) (exNodes false)) exHistStale) as [st|] eqn:E;
+    [|vm_compute in E; discriminate].
+  assert (H : exists a u pg nr cl enc p,
+            k_x (g_calls (s_g st) 0) = Some a /\ k_st (g_calls (s_g st) 0) = CS_done (O_rows u pg nr cl) /\
+            KnownClass (k_ext (g_calls (s_g st) 0)) (xa_use_cached a) /\
+            s_enc st 0 = Some (enc, p) /\ m_cols u <> enc).
+  { vm_compute in E. inversion E; subst st; clear E. vm_compute.
+    do 7 eexists. repeat split; try reflexivity. intros H; discriminate H. }
+  destruct H as [a [u [pg [nr [cl [enc [p H]]]]]]].
+  exists st, 0%nat, a, u, pg, nr, cl, enc, p. tauto.
+Qed.
+
+(* the same history, spelled out *)
 Example C14_ex_stale_without_ext :
-  match srun exD exST 1 (sinit (exInit false) (exNodes false))
-          [SL_event 0 (EV_schema 0 1); SL_event 0 (EV_evicted 0);
-           SL_exec 0 0 (exArgs true); SL_serve 0 payB; SL_recv 0; SL_serve 0 payB; SL_recv 0; SL_tick 0;
-           SL_serve 0 payB; SL_recv 0] with
+  match srun exD exST 1 (sinit (exInit false) (exNodes false)) exHistStale with
   | Some st =>
       let k0 := g_calls (s_g st) 0 in
       match k_st k0, k_rcvd k0, s_enc st 0 with
@@ -422,3 +458,5 @@ Print Assumptions C14_spec_is_generic.
 Print Assumptions C14_accept_sound.
 Print Assumptions C14_spec_accept_sound.
 Print Assumptions C14_evicted_recovers.
+Print Assumptions C14_known_class_dec.
+Print Assumptions C14_faithful_refuted.
